@@ -324,8 +324,37 @@ def sample(ctx, budget=1.0, hint=None, broken=None):
         path = P.Path(*segs)
         desc = repr(path).replace('\n', ' ')
         n = len(segs)
+        hist = ''
+        if r.random() < 0.35:
+            # the path was queried and then changed behind its back - on the segment objects, through a Path that shares them, or on a
+            # shallow copy - so that what the Path object remembers about its ends no longer describes its segments
+            import copy as _copy
+            if r.random() < 0.7:
+                path.start, path.end, path.iscontinuous() and path.isclosed(), path.length()
+                hist += ' after start/end/isclosed()/length() queries,'
+            how = r.choice(['seg-start', 'seg-end', 'close-by-seg', 'subpath-start', 'copy-append'])
+            dz = complex(0.75, -0.5)
+            if how == 'seg-start':
+                path[0].start = path[0].start + dz; hist += ' then p[0].start += %r' % dz
+            elif how == 'seg-end':
+                path[-1].end = path[-1].end + dz; hist += ' then p[-1].end += %r' % dz
+            elif how == 'close-by-seg':
+                path[-1].end = path[0].start; hist += ' then p[-1].end = p[0].start'
+            elif how == 'subpath-start':
+                try:
+                    sub = path.continuous_subpaths()[0]
+                    sub.start = sub.start + dz; hist += ' then p.continuous_subpaths()[0].start += %r' % dz
+                except Exception:
+                    pass
+            else:
+                q_ = _copy.copy(path)
+                extra = P.Line(q_[-1].end, q_[-1].end + dz)
+                q_.append(extra); hist += ' then copy.copy(p).append(%r)' % extra
+            segs = list(path)
+            n = len(segs)
+            desc += hist
         n_eval += 1
-        nontriv.add(('path', n, closed, gaps, tiny))
+        nontriv.add(('path', n, closed, gaps, tiny, hist.split(' then ')[-1].split(' ')[0] if hist else ''))
         before = [segs[i].end == segs[(i + 1) % n].start for i in range(n)]
         z_ = complex(r.uniform(-5, 5), 0.1)
         deg_ = r.uniform(-180, 180)
@@ -343,6 +372,15 @@ def sample(ctx, budget=1.0, hint=None, broken=None):
                 fail('Path.%s/segmentwise' % nm, 'operation does not act segment-wise', {'path': desc}, repr(q), 'same kinds, same count')
                 continue
             after = [q[i].end == q[(i + 1) % n].start for i in range(n)]
+            # segment-wise: every segment of the result traces the image of the corresponding segment (interior points; the ends may be
+            # re-welded onto an exactly coinciding neighbour, which moves them by rounding only)
+            for i in range(n):
+                a_ = op(path[i])
+                sz_ = abs(a_.point(0.5)) + abs(a_.end - a_.start) + 1e-300
+                if any(abs(q[i].point(t_) - a_.point(t_)) > 1e-9 * sz_ for t_ in (0.0, 0.5, 1.0)):
+                    fail('Path.%s/segment image' % nm, 'a segment of the transformed path is not the transformed segment', {'path': desc, 'op': nm, 'segment': i},
+                         repr([q[i].point(t_) for t_ in (0.0, 0.5, 1.0)]), repr([a_.point(t_) for t_ in (0.0, 0.5, 1.0)]))
+                    break
             # segment-wise: where two consecutive segments did NOT touch, both ends are exactly what the operation gives for
             # the segment alone (only joints that coincided are re-welded)
             for i in range(n):
@@ -363,7 +401,7 @@ def sample(ctx, budget=1.0, hint=None, broken=None):
     return {'evaluations': n_eval, 'distinct_nontrivial': len(nontriv), 'failures': fails, 'samples': samples,
             'rule': 'random segments of all four kinds, translation vectors, angles (incl. multiples of 90, >360), explicit/default origins, scale factors '
                     '(negative, <1), matrices (rotation, uniform/non-uniform scale, reflection, shear, products, near-identity); random open/closed paths with '
-                    'and without gaps under every operation. distinct = distinct (kind, scale, default origin?) / (path, n, closed, gaps)'}
+                    'and without gaps under every operation; 35% of the paths were queried and then changed on their segment objects / through a sharing Path / a shallow copy first. distinct = distinct (kind, scale, default origin?) / (path, n, closed, gaps)'}
 
 
 def replay(spt, f):
